@@ -26,6 +26,7 @@ META = {
     "number, the loop has no break/continue/return, the handler adds exactly one transaction per row (plus one artificial fee-only disposal on the crypto-fee split), the "
     "artificial list is drained into the set of each transaction's class; the split forwards every field of the acquisition unchanged except crypto_fee=None and extended notes, "
     "and builds a FEE out-transaction of zero amount and the crypto fee at the same instant/account/price with a fresh strictly negative id.",
+    "restated": 'documented defaults of empty optional cells per class and per combination of supplied columns, with constructor read order (C04.b)',
     "not_decided": "what ezodf returns for a cell, LibreOffice's rendering of blank rows, documented defaults of empty-string cells.",
     "assumptions": ["ezodf yields every row of the sheet once, in order", "format(float, '.11f') is the correctly rounded fixed-point rendering"],
 }
